@@ -142,6 +142,33 @@ for j in range(N):
             and np.allclose(res.quat, [t, 2 * t, 3 * t, 1.0]))
     print("truth", j, "->", int(res.label), float(res.score), res.shift, res.quat, "ok" if good else "WRONG")
     ok = ok and good
+# every candidate is scored on the sub-volume cut out by its own rotated mask: a blob in one corner of the box with a
+# soft mask around it, two searched rotations (identity, half turn); the sub-volume is the template in the orientation
+# of searched rotation 1 plus density elsewhere in the box
+from scipy.spatial.transform import Rotation
+from acryo.backend import Backend as _B
+zz, yy, xx = np.indices((9, 9, 9))
+d2 = (zz - 2) ** 2 + (yy - 2) ** 2 + (xx - 2) ** 2
+tmpl = (np.exp(-d2 / 2.0) + 0.05).astype(np.float32)
+soft = np.exp(-d2 / 8.0).astype(np.float32)
+class MR(RotationImplemented):
+    def pre_transform(self, image, backend):
+        return image
+    def _optimize(self, subvolume, template, max_shifts, quaternion, pos, backend):
+        score = -float(((np.asarray(subvolume) - np.asarray(template)) ** 2).sum())
+        return np.zeros(3, np.float32), np.array([0, 0, 0, 1], np.float32), score
+    def _score(self, *a, **k):
+        return 0.0
+for axis in "xyz":
+    rots = Rotation.concatenate([Rotation.identity(), Rotation.from_euler(axis, 180, degrees=True)])
+    m = MR(tmpl, soft, rotations=rots)
+    cand, masks = m._get_template_and_mask_input(_B())
+    img = (np.asarray(cand[1]) + 0.3 * (1 - np.asarray(masks[1]))).astype(np.float32)
+    res = m.align(img, (1.0, 1.0, 1.0))
+    good = np.allclose(np.abs(res.quat), np.abs(rots[1].as_quat()), atol=1e-5)
+    print("half turn about", axis, ": particle in the orientation of searched rotation 1; reported quaternion", np.round(res.quat, 3),
+          "ok" if good else "WRONG (scored under another candidate's mask)")
+    ok = ok and good
 print("clause holds natively:", ok)
 print("CONFIRMED" if not ok else "NOT-CONFIRMED"); sys.exit(1 if not ok else 0)
 '''
@@ -166,6 +193,11 @@ class optimize_multiple:
                              "all(result.quat[c] == called_at('%s', result.label)[1][c] for c in range(4))" % (_OPT, _OPT, _OPT),
         "candidate_inputs": "forall(lambda j: called_args_at('%s', j)['template'][0, 0, 0] == template_list[j, 0, 0, 0], "
                             "(0, template_list.shape[0]))" % _OPT,
+        # candidate j sees the sub-volume cut out by ITS OWN (rotated) mask, pre-transformed
+        "own_mask_per_candidate":
+            "forall(lambda j: arr_eq(called_args_at('%s', j)['subvolume'], called_at('pre_transform', j)) and "
+            "forall(lambda z, y, x: called_args_at('pre_transform', j)['image'][z, y, x] == subvolume[z, y, x] * mask_list[j, z, y, x], "
+            "(0, subvolume.shape[0]), (0, subvolume.shape[1]), (0, subvolume.shape[2])), (0, template_list.shape[0]))" % _OPT,
     }
 
 
@@ -293,7 +325,9 @@ print("CONFIRMED" if not ok else "NOT-CONFIRMED"); sys.exit(1 if not ok else 0)
 
 
 for _multi in (True, False):
-    @contract("acryo.alignment._base:RotationImplemented._get_template_and_mask_input", props=["C06"]) if _multi else (lambda c: c)
+    # (C01: a candidate rotated about a point other than the box centre makes `align` report a shift that absorbs the
+    # offset -- the molecule then misses the found pose)
+    @contract("acryo.alignment._base:RotationImplemented._get_template_and_mask_input", props=["C06", "C01"]) if _multi else (lambda c: c)
     class template_and_mask_input:
         """K > 1 rotations, T >= 2 templates: K*T candidate templates and K*T candidate masks; candidate p is template
         (p % T) and the mask, both transformed with the matrix of rotation (p // T) -- rotation-major, template-minor."""
